@@ -731,9 +731,14 @@ class SyncState:  # pylint: disable=too-many-instance-attributes, too-many-publi
                     ent = SyncEntry(self, None, (eid, ent_ser))
                     for side in [LOCAL, REMOTE]:
                         path, oid = ent[side].path, ent[side].oid
-                        if path not in self._paths[side]:
-                            self._paths[side][path] = {}
-                        self._paths[side][path][oid] = ent
+                        if oid is None:
+                            # same rules as the running engine (_change_oid / updated): a side without an oid is not
+                            # indexed and its change flag alone does not make the entry pending
+                            continue
+                        if path:
+                            if path not in self._paths[side]:
+                                self._paths[side][path] = {}
+                            self._paths[side][path][oid] = ent
                         self._oids[side][oid] = ent
                         if ent[side].changed:
                             self._changeset_storage.add(ent)
